@@ -6,4 +6,5 @@ CONSTANTS
   LatePool <- g3LatePool
   FirstMatch = TRUE
   RT = FALSE
+  Reduce = FALSE
 CHECK_DEADLOCK FALSE
